@@ -38,6 +38,9 @@ type Ref struct {
 	// statistics for the non-triviality rules
 	CancelBeforeAdd int
 	CancelAtExpiry  int
+	CancelInPass    int // a cancel issued at a schedule point inside an expiry pass
+	CancelInFlight  int // ... of a periodic timer between its commit and its send (the documented window)
+	ClientInPass    int // any client op inside a pass
 	MultiDue        int
 	Deliveries      int
 	lastDue         int64
@@ -139,6 +142,8 @@ func (f *Ref) Step(o Op, ob Obs) {
 		}
 	case "clock":
 		f.now += o.A
+	case "ftick":
+		f.fineTick(o, ob)
 	case "advance":
 		from := f.now
 		f.now += o.A
@@ -268,4 +273,110 @@ func (f *Ref) NextDue() (int64, bool) {
 		}
 	}
 	return best, ok
+}
+
+// fineTick: one tick whose expiry passes were interrupted at their schedule points. The real scheduler
+// announces, per node, "about to decide" (it takes the guard next) and, for a node it decided to deliver,
+// "about to send". The decision is the commit: it is what the table says at that moment — an accepted,
+// due timer that has not been cancelled is committed for delivery (a one-shot timer is from then on no
+// longer pending: Cancel must answer false; a periodic timer is re-armed and stays pending — a Cancel
+// answering true between its commit and its send cannot stop that send: the one documented window), a
+// cancelled one is dropped. What the property demands: the sends announced and the deliveries on Chan()
+// are exactly the commits, in order; at the end of the tick no accepted, uncancelled, due timer is
+// left out; every client call inside the pass is answered according to the table at that point.
+func (f *Ref) fineTick(o Op, ob Obs) {
+	tag := f.sched
+	from := f.now
+	if f.sched == "wheel" {
+		f.now++
+	} else {
+		f.now += o.A
+	}
+	span := fmt.Sprintf("tick %d -> %d", from, f.now)
+	var commits []int
+	announced := 0
+	lastDue, have := int64(0), false
+	pending := -1
+	resolve := func(k int) {
+		if pending < 0 {
+			return
+		}
+		id := pending
+		pending = -1
+		t := f.byID(id)
+		if t == nil {
+			return // cancelled (or unknown): the scheduler must drop it — a later send announcement is the failure
+		}
+		if !t.accepted || t.due > f.now {
+			f.Finding("delivered-not-due:"+tag, fmt.Sprintf("%s: %s: schedule point %d: the scheduler decides about timer %d, which is not due", tag, span, k, id))
+			return
+		}
+		if have && t.due < lastDue {
+			f.Finding("order:"+tag, fmt.Sprintf("%s: %s: timer %d (due %d) committed after a timer due %d", tag, span, id, t.due, lastDue))
+		}
+		lastDue, have = t.due, true
+		t.fired++
+		f.Deliveries++
+		if t.period > 0 {
+			if f.sched == "wheel" {
+				t.due += t.period
+			} else {
+				t.due = f.now + t.period
+			}
+		} else {
+			t.done = true
+		}
+		commits = append(commits, id)
+	}
+	for k, st := range ob.Steps {
+		resolve(k)
+		if st.Point == "decide" {
+			pending = st.ID
+		} else {
+			if announced >= len(commits) || commits[announced] != st.ID {
+				why := "is not the next committed timer"
+				for _, x := range f.ts {
+					if x.id == st.ID && x.cancelled {
+						why = "was cancelled (Cancel returned true) before the scheduler decided about it"
+					}
+				}
+				f.Finding("delivered-after-cancel-or-twice:"+tag, fmt.Sprintf("%s: %s: schedule point %d: the scheduler is about to send timer %d, which %s (committed so far: %v)", tag, span, k, st.ID, why, commits))
+			}
+			announced++
+		}
+		for i, co := range st.Ops {
+			f.ClientInPass++
+			if co.K == "cancel" && st.Obs[i].Bool {
+				f.CancelInPass++
+				sent := announced // sends completed so far: the one just announced has not happened yet
+				if st.Point == "send" {
+					sent--
+				}
+				for j := sent; j >= 0 && j < len(commits); j++ {
+					if commits[j] == int(co.A) {
+						f.CancelInFlight++
+					}
+				}
+			}
+			f.Step(co, st.Obs[i])
+		}
+	}
+	resolve(len(ob.Steps))
+	if len(commits) >= 2 {
+		f.MultiDue++
+	}
+	// transport: what arrives on Chan() is what was committed, in that order
+	same := len(commits) == len(ob.Fired)
+	for i := 0; same && i < len(commits); i++ {
+		same = commits[i] == ob.Fired[i]
+	}
+	if !same {
+		f.Finding("transport:"+tag, fmt.Sprintf("%s: %s: committed %v but Chan() delivered %v", tag, span, commits, ob.Fired))
+	}
+	// nothing that is due may be left out
+	for _, t := range f.ts {
+		if t.accepted && f.scheduled(t) && t.due <= f.now {
+			f.Finding("not-delivered:"+tag, fmt.Sprintf("%s: %s: timer %d due at %d was not delivered", tag, span, t.id, t.due))
+		}
+	}
 }
